@@ -581,10 +581,15 @@ void Model::doom_slots_of(int c, const char *why) {
 
 void Model::reply_expired(int caller, int callee, uint32_t serial) {
   event++;
+  // A caller may reuse a serial while the first call is still outstanding (to another callee): the slot the bus
+  // names is the one with that callee; a slot whose callee is gone is reported without one (callee -1).
+  for (int pass = 0; pass < 3; pass++)
   for (size_t i = 0; i < pending.size(); i++) {
     PendingReply &q = pending[i];
     if (q.caller != caller || q.serial != serial) continue;
-    if (!(q.doomed || q.callee == callee)) continue;
+    if (pass == 0 && !(q.callee == callee)) continue;
+    if (pass == 1 && !(callee < 0 && q.doomed)) continue;
+    if (pass == 2 && !(q.doomed || q.callee == callee)) continue;
     bool doomed = q.doomed;
     pending.erase(pending.begin() + (long)i);
     probes[doomed ? "noreply_sent_for_vanished_callee" : "reply_slot_expired"]++;
